@@ -290,8 +290,7 @@ def _reghist(ctx, shape):
             out = ("exc", type(e).__name__, exc_site(e))
         ctx.observe(f"{k}:{op}", out[0] if out[0] == "ok" else out[:2])
         if closed:
-            ctx.require(out[0] == "exc" and out[1] == "ProtocolError", "closed-session-accepted-data")
-            continue
+            continue  # (what a closed session does with input is C05/C08's subject, not this property's)
         if what == "cred" and out[0] == "ok":
             # a bind request was accepted: answer it, so that the next request is legal
             srv.bind_response(mid)
